@@ -1,6 +1,7 @@
 package chainsim
 
 import (
+	dbm "github.com/tendermint/tm-db"
 	"bytes"
 	"encoding/json"
 	"fmt"
@@ -104,5 +105,61 @@ func (w *World) exportImport(r *core.Run, chk *checkerSet, L *Ledger) (viol *cor
 		}
 	}
 	_ = before
+	// import: a fresh application is booted from the exported state (a chain restarted from an export)
+	// and exports again - what a module stores must survive the round trip unchanged
+	var imported map[string]json.RawMessage
+	func() {
+		defer func() {
+			if p := recover(); p != nil {
+				r.Count("import-failed")
+				r.Logf("h=%d import of the exported state failed: %v", w.Height, p)
+			}
+		}()
+		db := dbm.NewMemDB()
+		a := newApp(db)
+		a.InitChain(abci.RequestInitChain{ChainId: ChainID, Time: w.Time, ConsensusParams: consensusParams(), Validators: []abci.ValidatorUpdate{},
+			AppStateBytes: exp.AppState, InitialHeight: exp.Height})
+		a.Commit()
+		exp2, err := a.ExportAppStateAndValidators(false, nil)
+		if err != nil {
+			panic(err)
+		}
+		if err := json.Unmarshal(exp2.AppState, &imported); err != nil {
+			panic(err)
+		}
+	}()
+	if imported != nil {
+		r.Count("probe:export-import-roundtrip")
+		for _, m := range AkashStores {
+			if !bytes.Equal(gs[m], imported[m]) {
+				r.Count("import-changed:" + m)
+				if v := chk.importChanged(w, m, firstDiff(gs[m], imported[m])); v != nil {
+					return v
+				}
+			}
+		}
+	}
 	return nil
+}
+
+func firstDiff(a, b []byte) string {
+	i := 0
+	for i < len(a) && i < len(b) && a[i] == b[i] {
+		i++
+	}
+	lo := i - 60
+	if lo < 0 {
+		lo = 0
+	}
+	cut := func(x []byte) string {
+		hi := i + 60
+		if hi > len(x) {
+			hi = len(x)
+		}
+		if lo > len(x) {
+			return ""
+		}
+		return string(x[lo:hi])
+	}
+	return fmt.Sprintf("exported ...%s... re-exported after import ...%s...", cut(a), cut(b))
 }
